@@ -66,6 +66,21 @@ def missing (required : List String) (cs : List ClassInfo) : List String :=
 /-- the generated keys are the hashes of the names (checked by the kernel in Props/C11) -/
 def badKeys (cs : List ClassInfo) : List String := (cs.filter fun c => c.key != strKey c.name).map (·.name)
 
+/-- serialized members (positions in `idx`) whose pointer shape satisfies `p` -/
+def ptrAt (p : Nat → Bool) (idx : List Nat) : Nat → List Member → List String
+  | _, [] => []
+  | i, m :: ms => if idx.contains i && p m.ptr then m.name :: ptrAt p idx (i + 1) ms else ptrAt p idx (i + 1) ms
+
+/-- serialized members that hold a `shared_ptr` under a combinator the pointer layer of the model
+(`Model/SerialGraph.lean`) does not have (variant, set, key of a map, …: shape 2), or a raw pointer
+(shape 3: `Serializer` would memcpy the address) -/
+def unmodelledPtr (cs : List ClassInfo) : List (String × String) :=
+  cs.flatMap fun c => (ptrAt (fun k => decide (2 ≤ k)) c.serializedIdx 0 c.members).map fun n => (c.name, n)
+
+/-- serialized members that hold `shared_ptr`s, all under modelled combinators (shape 1) -/
+def modelledPtr (cs : List ClassInfo) : List (String × String) :=
+  cs.flatMap fun c => (ptrAt (fun k => k == 1) c.serializedIdx 0 c.members).map fun n => (c.name, n)
+
 def showPairs (ps : List (String × String)) : String :=
   ", ".intercalate (ps.map fun p => p.1 ++ "." ++ p.2)
 
